@@ -268,6 +268,20 @@ Proof.
 Qed.
 Print Assumptions C08_offline_keeps_offline_checks.
 
+(** The [--offline] FLAG end to end (cmd/pint/main.go actionSetup = SetDisabledChecks, --enabled, DisableOnlineChecks in
+    that order): whatever --disabled values (names, String() forms, tag forms, regexps) and --enabled values accompany it
+    and whatever the configuration file holds, no check with Meta().Online runs, except through a rule{enable} block. *)
+Theorem C08_offline_flag_end_to_end : forall strict_match fd fe c e prs p,
+  from_table prs ->
+  In p (get_checks (apply_flags strict_match check_names online_checks fd fe true c) e prs) ->
+  ck_online (pr_check p) = false \/ cfg_enables (c_rules c) (ck_reporter (pr_check p)) = true.
+Proof.
+  intros sm fd fe c e prs p HT Hin.
+  exact (C08_offline_runs_no_online_check (apply_flags sm check_names online_checks fd fe false c) e prs p HT Hin).
+Qed.
+Print Assumptions C08_offline_flag_end_to_end.
+
+
 (** A check only ever runs on an entry its rule block matches and whose change state it declares in Meta().States. *)
 Theorem C08_checks_run_in_declared_states : forall c e prs p,
   In p (get_checks c e prs) ->
